@@ -621,6 +621,32 @@ Proof.
     + fold (dec_value (show_dec n)). rewrite show_dec_value. exact H.
 Qed.
 
+(* every decimal number above the maximum is rejected (checked_mul / checked_add), not wrapped *)
+Lemma uint_fold_err max t : fold_left (uint_step max) t (Err E_number) = Err E_number.
+Proof. induction t as [|x t IH]; [reflexivity|]. cbn [fold_left]. exact IH. Qed.
+
+Lemma uint_fold_over max t : forall acc, all_digits t = true -> acc <= max ->
+  max < fold_left (fun a c => a * 10 + (c - 48)) t acc ->
+  fold_left (uint_step max) (digit_syms t) (Ok acc) = Err E_number.
+Proof.
+  induction t as [|c t IH]; intros acc D A B; [cbn [fold_left] in B; lia|].
+  cbn [all_digits] in D. apply andb_true_iff in D as [D1 D2].
+  cbn [digit_syms map fold_left] in *. fold (digit_syms t).
+  unfold uint_step at 2. cbn [bind].
+  destruct (max <? acc * 10) eqn:E1; [apply uint_fold_err|]. rewrite D1.
+  destruct (max <? acc * 10 + (c - 48)) eqn:E2; [apply uint_fold_err|].
+  apply IH; [exact D2 | lia | exact B].
+Qed.
+
+Theorem scan_int_rejects_above max n sp : max < n ->
+  read_uint max (shape_tok sp (TWord (digit_syms (show_dec n)))) = Err E_number.
+Proof.
+  intros H. unfold read_uint. cbn [shape_tok t_syms]. apply uint_fold_over.
+  - apply show_dec_digits.
+  - lia.
+  - fold (dec_value (show_dec n)). rewrite show_dec_value. exact H.
+Qed.
+
 (* a lone "@" label is written verbatim and read back as the origin *)
 Lemma scan_show_label_refuted : exists l o, wf_label l /\ wire_len [l] + wire_len o <= 254 /\
   read_name (Some o) (mk_tok false false (map label_sym l)) <> Ok (l :: o).
